@@ -74,16 +74,23 @@ def each_alone(files, mk_cmd, workers=14):
         return list(ex.map(one, files))
 
 
-def check_outputs(rep, run_id, outs, events, wd, seed, orders=3):
-    """outs: {backend: dir}. Appends Build events; reports violations for failing files."""
+def check_outputs(rep, run_id, outs, events, wd, seed, orders=3, shape_of=None):
+    """outs: {backend: dir}. Appends Build events; reports violations for failing files.
+    shape_of: optional map from a generated file's name to the program shape it was generated from (part of the key)."""
     rng = random.Random(seed)
     def report(backend, tool, results):
         for f, ok, err in results:
             events.append({"ev": "Build", "run": "%s|%s" % (run_id, backend), "file": os.path.basename(f), "tool": tool, "ok": ok})
             if not ok:
-                rep.violation({"set": run_id, "backend": backend, "tool": tool, "what": "generated file does not build on its own",
-                               "error": re.sub(r'\d+', 'N', (re.findall(r'error: ([^\n]*)', err) or ["?"])[0])[:120]},
-                              {"file": f, "stderr": err})
+                key = {"set": run_id, "backend": backend, "tool": tool, "what": "generated file does not build on its own",
+                       "error": re.sub(r'\d+', 'N', (re.findall(r'error: ([^\n]*)', err) or ["?"])[0])[:120]}
+                if shape_of:
+                    # all-headers translation units fail on the first bad header: name the shape of that header
+                    m = re.search(r'([HS]\d+)(?:\.d)?\.(?:h|hpp|mjs)[:\s]', err) if os.path.basename(f).startswith("tu_") else None
+                    sh = shape_of(m.group(1) if m else os.path.basename(f))
+                    if sh:
+                        key["shape"] = sh
+                rep.violation(key, {"file": f, "stderr": err})
     outs = {k: v for k, v in outs.items() if not k.startswith("_")}
     if "c" in outs:
         hs = [os.path.join(outs["c"], f) for f in sorted(os.listdir(outs["c"])) if f.endswith(".h")]
@@ -161,7 +168,8 @@ def attribute_macro_errors(rep, run_id, b, labels):
     return culprits
 
 
-def run_set(rep, run_id, lib_rs, wd, events, build=True, entry=None, cwd=None, config_file=None, labels=None, attribute=True):
+def run_set(rep, run_id, lib_rs, wd, events, build=True, entry=None, cwd=None, config_file=None, labels=None, attribute=True,
+            backends=("c", "cpp", "js"), shape_of=None):
     """macro expansion through rustc, then the three syntax-checkable backends"""
     macro_failed = False
     if build:
@@ -175,7 +183,7 @@ def run_set(rep, run_id, lib_rs, wd, events, build=True, entry=None, cwd=None, c
                 attribute_macro_errors(rep, run_id, b, labels or [(1, "?")])
         entry = os.path.join(b["dir"], "src", "lib.rs")
     outs = {}
-    for be in ("c", "cpp", "js"):
+    for be in backends:
         o = os.path.join(wd, "out_%s_%s" % (run_id, be))
         if config_file:
             exe = lib.build_tool()
@@ -193,7 +201,8 @@ def run_set(rep, run_id, lib_rs, wd, events, build=True, entry=None, cwd=None, c
         else:
             events.append({"ev": "Lower", "run": rid, "ok": False, "panic": "panicked at" in stderr})
             rep.extra.setdefault("sets_rejected_by_tool", []).append(rid)
-    check_outputs(rep, run_id, outs, events, wd, lib.seed())
+            outs["_rejected_" + be] = stderr
+    check_outputs(rep, run_id, outs, events, wd, lib.seed(), shape_of=shape_of)
     if macro_failed:
         outs["_macro_failed"] = True
     return outs
@@ -244,7 +253,32 @@ def run(rep, tier):
     items = [render.gate_item(n, c["pos"], c["ty"])[0].replace("{ todo!() }", "{ todo!() }") for n, c in enumerate(gcases)]
     src = ("#![allow(unused, non_snake_case, improper_ctypes_definitions, improper_ctypes, clippy::all)]\n" +
            render.bridge(items).replace("mod ffi", "pub mod ffi").replace("use diplomat_runtime::{", "use diplomat_runtime::{"))
-    outs = run_set(rep, "gate", src, wd, events, attribute=False)
+    def gate_shape(fname):
+        m = re.match(r'[HS](\d+)', fname)
+        if not m or int(m.group(1)) >= len(gcases):
+            return None
+        c = gcases[int(m.group(1))]
+        return "%s %s" % (c["pos"], render.ty(c["ty"]))
+    outs = run_set(rep, "gate", src, wd, events, attribute=False, shape_of=gate_shape)
+    # the C++ and JS backends support fewer features than C: they get the shapes of *their* profile (otherwise the
+    # whole module is refused at lowering and none of their output is ever compiled)
+    import profiles
+    profs = profiles.profiles()
+    for be in ("cpp", "js"):
+        if be in outs:
+            continue
+        sup = set(profs[be]["supports"])
+        sub = [(n, c) for n, c in enumerate(gcases) if set(c["need"]) <= sup]
+        # shapes on which this backend is known to crash (C15's findings) would take the whole module down: leave them out
+        import c15
+        sub = [(n, c) for n, c in sub if not c15.known_shape(be, "%s %s" % (c["pos"], render.ty(c["ty"])))]
+        srcb = render.bridge([render.gate_item(n, c["pos"], c["ty"])[0] for n, c in sub]).replace("mod ffi", "pub mod ffi")
+        eb = os.path.join(wd, "gate_%s.rs" % be)
+        open(eb, "w").write(srcb)
+        ob = run_set(rep, "gate_" + be, None, wd, events, build=False, entry=eb, backends=(be,), shape_of=gate_shape)
+        rep.extra["gate_shapes_" + be] = len(sub) if be in ob else 0
+        if be not in ob:
+            rep.extra.setdefault("gate_subset_rejected", {})[be] = (ob.get("_rejected_" + be) or "")[-600:]
     if outs.get("_macro_failed"):
         # attribute the failure: one bridge module per shape (own copies of the helper types), so that the line of the
         # offending #[diplomat::bridge] attribute names the shape
